@@ -30,6 +30,26 @@ CLAIMS = {
         text="Exploration. Meshes (empty, single face, shared/duplicated vertices, huge, float32-subnormal, -0, non-representable coordinates) through binary STL, coloured PLY and segment CSV writers and readers; random PLY headers (zero counts anywhere, every type name and list-length type, three encodings, raw bit-pattern values) through PLYWriter/PLYReader with an independent byte-level check of what reached the underlying writer; harness-written ASCII STL and OFF text variants; OBJ/MTL/3MF exports parsed by the harness (every face once, indices in range, material groups partition by colour).",
         note="Trusted: harness-side encoders/decoders (math/big for decimal numerals). ASCII NaN compared by class; OFF polygon triangle orientation not asserted (documented undefined).",
         design="3/C15"),
+    "C07": dict(
+        technique="property-based testing (rapid): reference roots of the reference distance along generated rays (sampling + bisection with measured general position), independent ray/triangle and ray/segment intersection, brute force over faces",
+        text="Exploration. Primitive colliders (3D, 2D) x rays with origins inside/outside and directions scaled 1e-3..1e3: callback count = returned count = count with nil callback, parameters >= 0, unit normals equal to the reference outward normal on smooth pieces, hit points on the surface, FirstRayCollision = minimum and exists iff count > 0, collision parameters = reference roots of the signed distance along the ray, odd count iff the origin is inside; ball queries and ColliderContains with margins of either sign against the reference distance. Triangles and 2D segments against an independent intersection routine (ray, segment, ball). Mesh colliders (MeshToCollider, BVH, grouped, interpolated normals) against brute force over the faces with parity and face normals; joined, profile, solid-sampling and transformed colliders against their parts / reference / tolerance.",
+        note="Trusted: reference distances (gen.Shape3/Shape2.RefSDF) and kit intersection tests. Rays that are not in general position by the stated measurable rule (near-tangency, close roots, origin near the surface, hit near a face edge) are skipped and counted (about 1-2% of rays). Known finding cone-near-axis (ball queries) excluded by construction while it persists.",
+        design="3/C07"),
+    "C08": dict(
+        technique="differential property-based testing (rapid): spatial index vs linear scan over the same objects with the library's own per-object primitive",
+        text="Exploration. Object sets with duplicates, coincident bounds, flat boxes, single elements, grid-aligned coordinates (exact ties) x ray/first-hit/ball/segment/box/triangle queries against seven index builds (2D and 3D), mesh distance fields vs the exhaustive minimum, CoordTree nearest/k-nearest/ball/contains/slice vs scan (exact), grouping and BVH construction as pointer-multiset permutations, render3d BVH/Joined/Filtered objects vs a scan.",
+        note="Trusted: the per-object primitives (checked separately in C07/C06), the harness re-derivation of the bounding-box prefilters. In the generic-float regime a hit whose own box passes the prefilter only within 1e-9 relative may go either way; on grid inputs comparisons are exact.",
+        design="3/C08"),
+    "C14": dict(
+        technique="property-based testing (rapid) + exhaustive enumeration of small bitmap outlines with a cover/disjointness/area validity oracle",
+        text="Exploration. Simple polygons by construction (convex, star, zigzag, monotone chains, combs, spirals; colinear runs; any start vertex, direction and rigid placement), regions with holes and nested islands, planar 3D faces in random planes, OFF files with polygonal faces, outlines of all 3x3 and 4x4 bitmaps: output vertices are input vertices, proper triangles lie inside the region, do not overlap, sum to the shoelace area and are clockwise where documented; ProfileMesh is a closed oriented manifold with volume = area x height.",
+        note="Trusted: kit polygon predicates with stated tolerances; zero-area triangles across colinear runs are exempt from the containment/overlap clauses. Three known findings (ear clipping with a vertex on the ear base, TriangulateFace basis from rounding noise, sliver panic) are excluded by construction while they persist.",
+        design="3/C14"),
+    "C16": dict(
+        technique="fault-injection property-based testing (rapid: every truncation point, single-field corruptions, token-dictionary byte strings) + native go fuzzing (thorough) with a totality oracle",
+        text="Exploration. Every prefix of harness-written valid STL/OFF/PLY/CSV files, single-field corruptions (counts, list lengths, indices, type names, removed properties, token edits, byte flips) and dictionary byte soup through ReadSTL/STLReader, ReadOFF/OFFReader, ReadColorPLY, PLYReader/NewPLYHeaderDecode and DecodeCSV under three reader behaviours: no panic, termination (watchdog; row APIs may not return 1e6 rows without consuming input), allocation <= 1 MiB + 64n + 2n^2 measured via TotalAlloc under RLIMIT_AS, and row-count accounting against the bytes present.",
+        note="Trusted: Go runtime memory statistics (calibrated, re-measured on excess). Known finding off-degenerate-polygon (ReadOFF panics through TriangulateFace) excluded by construction while it persists.",
+        design="3/C16"),
     "C09": dict(
         technique="model-based (stateful) property testing with rapid: operation histories against a reference face list / Go map",
         text="Exploration. Random histories (<= 45 steps) of Add/Remove/AddMesh/Copy/DeepCopy/Translate/Scale/MapCoords (merging)/Transform/InvertNormals interleaved with queries that build the lazy vertex index at arbitrary moments, for 2D and 3D meshes, compared after every step with a brute-force model over the harness's own list of face pointers; histories over all six coordinate/edge map types of both packages against a Go map keyed by the same type, with hash-colliding and signed-zero keys; and outputs of the library's in-place editors (marching-cubes search, FlattenBase, EliminateEdges, decimation, dual contouring with repair) compared with a fresh mesh of their faces, also after further edits.",
